@@ -54,6 +54,7 @@ pub fn prop() -> HistProp {
         thorough: 100000,
         mk: |_, _, _| Box::new(C05 { nontrivial: false }),
         extra: None,
+        many_batches: 0,
     }
 }
 
